@@ -1,5 +1,6 @@
 import A5.Model.GenericGeo
 import A5.Lemmas.PentagonArea
+import A5.Lemmas.SplitEdges
 /-! # C04 — all cells of a resolution have equal area: sphere area / number of cells
 
 Model: `A5.getNumCells` (`A5/Model/Hier.lean`), `A5.cellArea` (`A5/Model/CellGeo.lean`), the generated
@@ -204,5 +205,15 @@ theorem pentagon_area_is_triangle_area :
 
 /-- T4a is not vacuous: the anchor of position 6, depth 2, orientation 3 has a `±1` flip pair -/
 example : HilbertLocate.IsFlip (⟨1, (3, 0), (1, -1)⟩ : Anchor).flips := Or.inr (Or.inl rfl)
+
+/-! ## T5: subdividing the edges does not change the polygon -/
+
+/-- T5. `split_edges_preserves_area`: over any field of characteristic zero, for ANY polygon and any `n ≥ 1`, the ring
+`split_edges` produces (the generic twin `splitEdgesG`, tied to the Float model by `PG.polySplitEdges_tie`) has the same
+trapezoid-sum area as the polygon: the boundary "with finely subdivided edges" encloses, in the plane, exactly the cell's
+pentagon. -/
+theorem split_edges_preserves_area {K : Type} [Field K] [CharZero K] (vs : List (K × K)) (n : Nat) (hn : 1 ≤ n) :
+    PG.areaG 0 (PG.splitEdgesG Nat.cast 0 vs n) = PG.areaG 0 vs :=
+  PG.area_split vs n hn
 
 end A5.C04
